@@ -25,8 +25,14 @@ def _no_stored_pdu_requeued(prog, ev: Evidence) -> list[Finding]:
     ev.rule("C06-R8", "every PDU queued for sending is constructed in the same function activation, never taken from the handler's or the transaction's stored state", 3)
     out: list[Finding] = []
     n = 0
+    # the queueing helper(s) are found by content: methods that append their parameter to the send queue
+    queuers = {"_add_packet_to_be_sent"}
     for fi in prog.functions.values():
-        if fi.cls != DH:
+        if fi.cls == DH and len(fi.params) == 2 and any(isinstance(c, ast.Call) and isinstance(c.func, ast.Attribute) and c.func.attr == "append"
+                                                         and ast.unparse(c.func.value).endswith("_pdus_to_be_sent") for c in ast.walk(fi.node)):
+            queuers.add(fi.name)
+    for fi in prog.functions.values():
+        if fi.cls != DH or fi.name in queuers:
             continue
         stored_locals: dict[str, str] = {}
         for node in sorted((x for x in ast.walk(fi.node) if isinstance(x, (ast.For, ast.Assign, ast.Call))), key=lambda x: (x.lineno, x.col_offset)):
@@ -40,7 +46,7 @@ def _no_stored_pdu_requeued(prog, ev: Evidence) -> list[Finding]:
                     stored_locals[node.targets[0].id] = t
                 else:
                     stored_locals.pop(node.targets[0].id, None)
-            elif isinstance(node, ast.Call) and isinstance(node.func, ast.Attribute) and node.func.attr in ("_add_packet_to_be_sent",) or (
+            elif isinstance(node, ast.Call) and isinstance(node.func, ast.Attribute) and node.func.attr in queuers or (
                     isinstance(node, ast.Call) and isinstance(node.func, ast.Attribute) and node.func.attr == "append" and ast.unparse(node.func.value).endswith("_pdus_to_be_sent")):
                 if not node.args:
                     continue
